@@ -42,11 +42,13 @@ def handle (c : Case) : Res :=
         else if refH[2*q]! ≠ gotH[2*q]! ∨ refH[2*q+1]! ≠ gotH[2*q+1]! then some s!"job {q} ({kindName kinds[q]!}): output bytes differ between the call alone and the same call run concurrently"
         else none
     else
-      if gotL.size ≠ 2 ∨ gotH.size ≠ 4 then some "missing repeated outputs" else
+      if gotL.size ≠ 3 ∨ gotH.size ≠ 6 then some "missing repeated outputs" else
       if refL[0]! ≠ gotL[0]! ∨ refH[0]! ≠ gotH[0]! ∨ refH[1]! ≠ gotH[1]! then
         some s!"{kindName kinds[0]!}: repeating the call after unrelated calls gave different output"
       else if refL[0]! ≠ gotL[1]! ∨ refH[0]! ≠ gotH[2]! ∨ refH[1]! ≠ gotH[3]! then
         some s!"{kindName kinds[0]!}: output depends on the fill byte of fresh allocations (uninitialised read)"
+      else if refL[0]! ≠ gotL[2]! ∨ refH[0]! ≠ gotH[4]! ∨ refH[1]! ≠ gotH[5]! then
+        some s!"{kindName kinds[0]!}: output depends on the fill byte of fresh allocations (uninitialised read, fill 0xFF)"
       else none
   match bad with
   | some m => Res.propFalse (m ++ " [" ++ c.str "diff" ++ "]") tags
